@@ -112,7 +112,9 @@ def netlists(
             src = gates[n_in + draw(st.integers(0, k - n_in - 1))]
             if src[1] in types:
                 ops = list(src[2])
-                variant = draw(st.sampled_from(['same', 'rotate', 'repeat_operand', 'drop_operand']))
+                # (for the order-sensitive two-operand types the swapped twin is the interesting near duplicate)
+                variant = draw(st.sampled_from(['same', 'rotate', 'repeat_operand', 'drop_operand'] if src[1] in NARY
+                                               else ['same', 'rotate', 'rotate']))
                 if variant == 'rotate' and len(ops) >= 2:
                     ops = ops[1:] + ops[:1]
                 elif variant == 'repeat_operand' and src[1] in NARY and len(ops) < max_arity:
